@@ -132,6 +132,7 @@ type run struct {
 	n    int
 	duty core.Duty
 	t0   time.Time // duty start: the reference of every logged "now" (ms)
+	rot  int       // member i is logged as (i - rot) mod n
 
 	keys  []*k1.PrivateKey
 	peers []p2p.Peer
@@ -157,7 +158,69 @@ func (r *run) now() int { return int(time.Since(r.t0) / time.Millisecond) }
 
 func (r *run) emit(ev drv.Step) {
 	ev["now"] = r.now()
+	r.rotate(ev)
 	r.tr.Emit(ev)
+}
+
+// rotate renames the members in a logged event: member i is logged as (i - rot) mod n, rot = (slot + duty type) mod n.
+// In that numbering the REQUIRED leader of round k is member k mod n for every slot and duty type (Inst = 0), so runs of
+// all leader rotations are validated under one set of specification constants.  Values keep their numbers.
+func (r *run) rotate(ev drv.Step) {
+	one := func(v any) any {
+		i := drv.Num(v)
+		if i < 0 {
+			return i
+		}
+		return (i - r.rot + r.n) % r.n
+	}
+	many := func(v any) any {
+		res := []int{}
+		switch l := v.(type) {
+		case []int:
+			for _, x := range l {
+				res = append(res, one(x).(int))
+			}
+		case []any:
+			for _, x := range l {
+				res = append(res, one(x).(int))
+			}
+		}
+		return res
+	}
+	msg := func(v any) {
+		m, ok := v.(map[string]any)
+		if !ok {
+			return
+		}
+		m["src"] = one(m["src"])
+		for _, j := range list(m["just"]) {
+			if b, ok := j.(map[string]any); ok {
+				b["src"] = one(b["src"])
+			}
+		}
+	}
+	for _, k := range []string{"p", "b", "src", "from"} {
+		if v, ok := ev[k]; ok {
+			ev[k] = one(v)
+		}
+	}
+	if v, ok := ev["to"]; ok {
+		switch v.(type) {
+		case []int, []any:
+			ev["to"] = many(v)
+		default:
+			ev["to"] = one(v)
+		}
+	}
+	if v, ok := ev["byz"]; ok {
+		ev["byz"] = many(v)
+	}
+	msg(ev["m"])
+	for _, x := range list(ev["msgs"]) {
+		if e, ok := x.(map[string]any); ok {
+			msg(e["m"])
+		}
+	}
 }
 
 func (r *run) idx(p peer.ID) int {
@@ -363,7 +426,7 @@ func (r *run) logged(e map[string]any) {
 	switch {
 	case msg == "QBFT round changed":
 		if node >= 0 {
-			r.emit(drv.Step{"ev": "Round", "p": node, "from": num(e, "round"), "to": num(e, "new_round"), "rule": fmt.Sprint(e["rule"])})
+			r.emit(drv.Step{"ev": "Round", "p": node, "old": num(e, "round"), "new": num(e, "new_round"), "rule": fmt.Sprint(e["rule"])})
 		}
 	case msg == "QBFT consensus decided":
 		if node >= 0 {
@@ -660,9 +723,14 @@ func runCluster(t *testing.T, tr emitter, sid int, cfg map[string]any) {
 	}
 	start, prop := ints(cfg["start"]), ints(cfg["prop"])
 	horizon := time.Duration(num(cfg, "horizon")) * time.Millisecond
-	inst := (slot + int(duty.Type)) % n
-	tr.Emit(drv.Step{"ev": "Reset", "sid": sid, "n": n, "inst": inst, "byz": r.byz, "timer": timer, "timely": boolean(cfg["timely"]),
-		"slot": slot, "dtype": dtype, "family": drv.Str(cfg["family"]), "roundms": num(cfg, "roundms"), "extrams": num(cfg, "extrams")})
+	inst := (slot + int(duty.Type)) % n // the REQUIRED rotation: the leader of round k is member (inst + k) mod n
+	if boolean(cfg["rotate"]) {
+		r.rot, inst = inst, 0
+	}
+	reset := drv.Step{"ev": "Reset", "sid": sid, "n": n, "inst": inst, "rot": r.rot, "byz": append([]int{}, r.byz...), "timer": timer, "timely": boolean(cfg["timely"]),
+		"slot": slot, "dtype": dtype, "family": drv.Str(cfg["family"]), "roundms": num(cfg, "roundms"), "extrams": num(cfg, "extrams")}
+	r.rotate(reset)
+	tr.Emit(reset)
 
 	ctx, cancelAll := context.WithCancel(context.Background())
 	bc := bclient{spec: map[string]any{"SECONDS_PER_SLOT": slotDur, "SLOTS_PER_EPOCH": uint64(32)}}
@@ -847,7 +915,9 @@ func runCluster(t *testing.T, tr emitter, sid int, cfg map[string]any) {
 		for _, m := range s.inst.GetMsgs() {
 			msgs = append(msgs, map[string]any{"t": int(m.GetTimestamp().AsTime().Sub(r.t0) / time.Millisecond), "m": r.abstract(m.GetMsg())})
 		}
-		tr.Emit(drv.Step{"ev": "Sniff", "p": s.node, "msgs": msgs, "peeridx": int(s.inst.GetPeerIdx()), "nodes": int(s.inst.GetNodes())})
+		ev := drv.Step{"ev": "Sniff", "p": s.node, "msgs": msgs, "peeridx": int(s.inst.GetPeerIdx()), "nodes": int(s.inst.GetNodes())}
+		r.rotate(ev)
+		tr.Emit(ev)
 	}
 }
 
